@@ -202,6 +202,38 @@ fn main() {
     let k3 = known.clone();
     ck.run(Section::pbt("protocol-history", tier.pick(400, 40_000), protocol_case, move |c: &HistCase| check_history(c, &k3)).shards(16));
 
+    // DiskCache reads files of 16 MiB and more through its own path (read_file_mmap)
+    let k4 = known.clone();
+    ck.run(
+        Section::enumerate(
+            "large-values",
+            "values of 16 MiB - 1, 16 MiB, 16 MiB + 4321, 17.5 MiB and 33 MiB + 1 on DiskCache (flat and 2-level layout), ProtocolCache over a directory and MemoryCache: put, get, overwrite by a small value, get, put again, new instance over the same directory, get, sweep",
+            || {
+                const MIB: usize = 1024 * 1024;
+                let mut v = Vec::new();
+                for len in [16 * MIB - 1, 16 * MIB, 16 * MIB + 4321, 17 * MIB + MIB / 2, 33 * MIB + 1] {
+                    for backend in [
+                        Backend::Disk { subdir_levels: 0 },
+                        Backend::Disk { subdir_levels: 2 },
+                        Backend::ProtoDisk,
+                        Backend::Memory { policy: Pol::Lru, max_entries: 4, max_bytes: None },
+                    ] {
+                        let disk = !matches!(backend, Backend::Memory { .. });
+                        let mut ops = vec![Op::Put { k: 0, len }, Op::Get { k: 0 }, Op::Put { k: 1, len: 10 }, Op::Put { k: 0, len: 7 }, Op::Get { k: 0 }, Op::PutTtl { k: 0, len, zero: false }, Op::Get { k: 0 }];
+                        if disk {
+                            ops.extend([Op::Recreate, Op::Get { k: 0 }, Op::Get { k: 1 }]);
+                        }
+                        ops.push(Op::Sweep);
+                        v.push(HistCase { backend, default_ttl: DefTtl::Hour, key_style: (len % 5) as u8, pool: 2, content_seed: len as u64, ops });
+                    }
+                }
+                Box::new(v.into_iter())
+            },
+            move |c: &HistCase| check_history(c, &k4),
+        )
+        .shards(10),
+    );
+
     ck.run(
         Section::enumerate(
             "background-cleanup",
